@@ -227,6 +227,7 @@ def run_property(prop_id, tier='quick', seed=0, jobs=None):
     obligations, discharged, failed, undecided, crashes = 0, 0, [], [], []
     known_seen = {}
     samples, assumptions, inlined, modelled, sha = [], set(), set(), set(), {}
+    slow = []
     solver_time = 0.0
     paths = 0
     per_fn = {}
@@ -282,6 +283,9 @@ def run_property(prop_id, tier='quick', seed=0, jobs=None):
         for ob in r['obligations'][:2]:
             samples.append({'obligation': ob['name'], 'status': ob['status'], 'solver': ob['solver'],
                             'time_s': ob['time_s'], 'path': ob.get('trace', '')})
+        for ob in r['obligations']:
+            if ob.get('time_s', 0) > 1.0:
+                slow.append({'obligation': ob['name'], 'status': ob['status'], 'solver': ob['solver'], 'time_s': ob['time_s']})
 
     # bounded stand-ins (never counted as proved)
     bounded = []
@@ -355,6 +359,7 @@ def run_property(prop_id, tier='quick', seed=0, jobs=None):
             'checker_cmd': cmd,
             'trusted_base': sorted(assumptions) + list(getattr(mod, 'TRUSTED', [])),
             'samples': samples[:40],
+            'slowest_obligations': sorted(slow, key=lambda x: -x.get('time_s', 0))[:10],
             'functions_under_contract': per_fn,
             'functions_inlined_without_contract': sorted(inlined),
             'callee_contracts_used_at_call_sites': sorted(modelled),
